@@ -94,7 +94,7 @@ func (ep *Epoch) lookup(e *Emitter, g *Gen, key string, sort Sort) Term {
 			t = e.declare(fmt.Sprintf("%s@h%d", key, ep.id), sort)
 		}
 	case epLoop:
-		if ep.modAll && !keyIsLocal(key) || ep.mod[key] {
+		if ep.modAll && !keyIsLocal(key) && !hasAnyPrefix(key, ep.keep) || ep.mod[key] {
 			t = e.declare(fmt.Sprintf("%s@l%d", key, ep.id), sort)
 			if key == "$wm" {
 				e.asserts = append(e.asserts, "(assert "+ge(t, ep.parent.get(e, key, sort)).S+")")
@@ -143,6 +143,11 @@ func (g *Gen) havocAll(s *State, alsoLocal map[string]bool) *State {
 	ep.parent = s
 	ep.mod = alsoLocal
 	g.havocAllSeen = true
+	if g.dry == 0 {
+		g.havocEpochs = append(g.havocEpochs, ep)
+	} else {
+		g.dryHavocs = append(g.dryHavocs, ep)
+	}
 	return &State{ep: ep, w: map[string]Term{}, g: g}
 }
 
